@@ -40,12 +40,17 @@ def oracle_C15(case, obs):
     run_open = False
     bundle = None  # {"name":, "reads": [(obj, reading)]}
     seen = []  # all docs so far
+    stream_objs = {}  # per run: stream -> objects of its descriptor
     for e in obs["entries"]:
         m, docs, err = e["msg"], e["docs"], e["err"]
         c = m["cmd"]
         opnames = [o["op"] for o in e["ops"]]
+        stream_objs_before = dict(stream_objs)
+        for d in docs:
+            if d["kind"] == "descriptor":
+                stream_objs[d["stream"]] = sorted(o for o, _ in d["objKeys"])
         if c == "open_run" and err is None:
-            run_open, bundle = True, None
+            run_open, bundle, stream_objs = True, None, {}
         elif c in ("close_run", "end") and any(d["kind"] == "stop" for d in docs):
             run_open, bundle = False, None
         elif c == "create":
@@ -93,6 +98,12 @@ def oracle_C15(case, obs):
                         bad.append(("C15:save-document-order", f"save emitted {kinds}"))
                     if err is None and len(evs) != 1:
                         bad.append(("C15:save-no-event", f"successful save with readings emitted {kinds}"))
+                    # a well-formed bundle (readings = the devices' keys, objects = the stream's objects) must be saved
+                    objs = sorted(o for o, _ in bundle["reads"])
+                    wellformed = all(sorted(k for k, _ in r) == sorted(keys[o]) for o, r in bundle["reads"]) and len(set(objs)) == len(objs)
+                    prior = stream_objs_before.get(bundle["name"])
+                    if wellformed and (prior is None or prior == objs) and (err is not None or len(evs) != 1):
+                        bad.append(("C15:wellformed-bundle-not-saved", f"bundle {bundle['name']} over {objs}: err={err} emitted {kinds}"))
                     for ev in evs:
                         want = _merge([r for _, r in bundle["reads"]])
                         if ev["data"] != want:
